@@ -1,7 +1,7 @@
 """Models of Python builtins / library methods used by the verified functions, and the
 specification-only functions (forall, implies, old, ...).  Each model is exact for the
 stated argument types or raises Unsupported."""
-import ast
+import ast, os
 import z3
 from .vtypes import *
 from . import vtypes as T
@@ -694,7 +694,7 @@ def _map_method(ex, bm, recv, name, args, kwargs):
         kt = pack(coerce(a0, ty.k))
         return vite(z3.Select(dom, kt), unpack(z3.Select(val, kt), ty.v), ex.val(dflt))
     if name == 'pop':
-        kt = pack(coerce(args[0], ty.k))
+        kt = pack(ex.co(args[0], ty.k))
         if len(args) == 1:
             if ex.branch(z3.Not(z3.Select(dom, kt)), exceptional=True): ex.raise_exc('KeyError')
             r = unpack(z3.Select(val, kt), ty.v)
@@ -844,11 +844,33 @@ def _quant(ex, name, a):
     params = [p.arg for p in lam.node.args.args]
     depth = ex.qdepth
     pats = []
+    qfacts = []
+    def generalise(consts):
+        # side facts learnt while the body was evaluated (sign facts `length / cardinality >= 0` of values read from the heap or from a map at an index
+        # that depends on the bound variable) were assumed for the bound variable as if it were a constant; they hold at EVERY location, and the instances
+        # at other locations are needed as well (without them a solver may pick a negative length for the list read at another index and report a bogus
+        # counter-model).  They are generalised over the READ LOCATION (`forall r: len(heap[r]) >= 0`), not over the bound variable: that form has an
+        # obvious trigger, is the same for every clause reading the same array, and does not drag index arithmetic into the quantifier.
+        if os.environ.get('PYVC_NO_GENERALISE'): return
+        for f_ in qfacts:
+            if not (z3.is_app(f_) and f_.decl().kind() == z3.Z3_OP_GE and z3.is_int_value(f_.arg(1)) and f_.arg(1).as_long() == 0): continue
+            if not any(_occurs(c_, f_) for c_ in consts): continue
+            g_ = _generalise_over_locations(f_, consts)
+            if g_ is not None: ex.assume(g_)
     def body(bind):
         saved = ex.st.env
         ex.st.env = dict(lam.env); ex.st.env.update(saved); ex.st.env.update(bind)
         ex.qdepth += 1
+        saved_log = ex.facts_log; ex.facts_log = []
         try:
+            return _body(bind)
+        finally:
+            qfacts.extend(ex.facts_log)
+            if saved_log is not None: saved_log.extend(ex.facts_log)
+            ex.facts_log = saved_log
+            ex.st.env = saved; ex.qdepth -= 1
+    def _body(bind):
+        if True:
             bnode = lam.node.body
             if isinstance(bnode, ast.Call) and isinstance(bnode.func, ast.Name) and bnode.func.id == 'guarded' and len(bnode.args) == 2:
                 # guarded(g, B):  g ==> B  with g as the only instantiation pattern.  g is an uninterpreted guard token: a proof that is
@@ -862,14 +884,13 @@ def _quant(ex, name, a):
                 pats.append(pt.t if isinstance(pt, V) and not isinstance(pt.t, (list, tuple, dict)) else truth(pt))
                 return b
             return truth(ex.val(ex.eval(bnode)))
-        finally: ex.st.env = saved; ex.qdepth -= 1
     # bound variables get canonical names (parameter name + nesting depth): evaluating the same clause over the same state
     # yields the identical term, which prove() recognises among the hypotheses
     def bconst(pname, sort): return z3.Const('%s!q%d' % (pname, depth), sort)
     if len(a) == 3 and not isinstance(a[0], E.TypeObj):
         lo, hi = coerce(a[0], TInt).t, coerce(a[1], TInt).t
         i = bconst(params[0], z3.IntSort())
-        b = body({params[0]: vint(i)}); rng = z3.And(i >= lo, i < hi)
+        b = body({params[0]: vint(i)}); rng = z3.And(i >= lo, i < hi); generalise([i])
         return vbool(z3.ForAll([i], z3.Implies(rng, b)) if name == 'forall' else z3.Exists([i], z3.And(rng, b)))
     dom = a[0]
     if isinstance(dom, E.TypeObj):
@@ -884,20 +905,52 @@ def _quant(ex, name, a):
                 facts.extend(T.type_facts(x_))
             else:
                 x_ = havoc(t, p, facts); xs.append(x_); consts.extend(_consts_of([x_]))
-        b = body(dict(zip(params, xs)))
+        b = body(dict(zip(params, xs))); generalise(consts)
         if facts: b = z3.Implies(z3.And(*facts), b) if name == 'forall' else z3.And(*(facts + [b]))
         if pats and name == 'forall': return vbool(z3.ForAll(consts, b, patterns=[pats[-1]]))
         return vbool(z3.ForAll(consts, b) if name == 'forall' else z3.Exists(consts, b))
     if isinstance(dom.ty, TSeq):
         i = fresh('qi', z3.IntSort())
-        b = body({params[0]: seq_get(dom, i)}); rng = z3.And(i >= 0, i < dom.t[0])
+        b = body({params[0]: seq_get(dom, i)}); rng = z3.And(i >= 0, i < dom.t[0]); generalise([i])
         return vbool(z3.ForAll([i], z3.Implies(rng, b)) if name == 'forall' else z3.Exists([i], z3.And(rng, b)))
     if isinstance(dom.ty, TSet):
         facts = []; x = havoc(dom.ty.elem, params[0], facts)
         b = body({params[0]: x}); rng = z3.Select(dom.t[0], pack(x))
-        consts = _consts_of([x])
+        consts = _consts_of([x]); generalise(consts)
         return vbool(z3.ForAll(consts, z3.Implies(rng, b)) if name == 'forall' else z3.Exists(consts, z3.And(rng, b)))
     raise Unsupported('quantifier domain %r' % dom.ty)
+
+def _generalise_over_locations(f, consts):
+    """f[select(a, t(bound))] -> forall x: f[select(a, x)]  (None if a bound variable occurs anywhere else)"""
+    fresh_vars = {}
+    def has_bound(t): return any(_occurs(c, t) for c in consts)
+    def sub(t):
+        if not z3.is_app(t) or t.num_args() == 0: return t
+        if t.decl().kind() == z3.Z3_OP_SELECT and t.num_args() == 2:
+            a, idx = t.arg(0), t.arg(1)
+            a2 = sub(a)
+            if has_bound(idx):
+                key = idx.get_id()
+                if key not in fresh_vars: fresh_vars[key] = z3.Const('loc!g%d' % len(fresh_vars), idx.sort())
+                return z3.Select(a2, fresh_vars[key])
+            return z3.Select(a2, sub(idx))
+        return t.decl()(*[sub(t.arg(i)) for i in range(t.num_args())])
+    try: g = sub(f)
+    except Exception: return None
+    if not fresh_vars or has_bound(g): return None
+    return z3.ForAll(list(fresh_vars.values()), g)
+
+def _occurs(c, f):
+    """does the constant c occur in formula f"""
+    seen = set(); stack = [f]; cid = c.get_id()
+    while stack:
+        t = stack.pop()
+        if t.get_id() in seen: continue
+        seen.add(t.get_id())
+        if t.get_id() == cid: return True
+        if z3.is_quantifier(t): stack.append(t.body())
+        else: stack.extend(t.children())
+    return False
 
 def _consts_of(vals):
     out = []
